@@ -55,6 +55,20 @@ static int check_queue() {
         for (int k = nq - 1; k >= 0; --k) if (!(mask & (1 << k))) { expect = idx[k]; break; }
         if (got != expect) { std::printf("REPRODUCED: %s returned %zu, expected %zu (queue of %d, held mask %d)\n", use_try ? "try_get_task" : "get_task", got, expect, nq, mask); bad = 1; }
         if (q.size() != (size_t)nq - (expect != NO_TASK ? 1 : 0)) { std::printf("REPRODUCED: queue size %zu after pop (queue of %d, held mask %d)\n", q.size(), nq, mask); bad = 1; }
+        /* what is left in the queue: every other entry exactly once, order kept (read through the real array) */
+        {
+          size_t pos = 0;
+          for (int k = 0; k < nq; ++k) {
+            if (idx[k] == expect) continue;
+            if (pos >= q.size() || q._queue[pos] != idx[k]) {
+              std::printf("REPRODUCED: after %s handed out task %zu the queue no longer holds the other entries once each in order (position %zu holds %zu, expected %zu; queue of %d, held mask %d): a task is lost or handed out twice\n",
+                          use_try ? "try_get_task" : "get_task", got, pos, pos < q.size() ? q._queue[pos] : (size_t)-1, idx[k], nq, mask);
+              bad = 1;
+              break;
+            }
+            ++pos;
+          }
+        }
         /* the queue lock must be free again */
         if (!q._queue_lock.try_lock()) { std::printf("REPRODUCED: %s left the queue lock held (queue of %d entries, held mask %d): every later get_task/add_task spins forever\n", use_try ? "try_get_task" : "get_task", nq, mask); bad = 1; }
         else q._queue_lock.unlock();
